@@ -146,7 +146,7 @@ Definition s_operand (ss : sstate) (o : operand) : res val :=
               | Some l => match slook ss l with KNone => Fail Stuck | _ => Ok (VRef l) end
               | None => Fail Stuck
               end
-  | OElem x i => do lxs <- s_vec ss x; seq_get (snd lxs) i
+  | OElem x i | OCall x i => do lxs <- s_vec ss x; seq_get (snd lxs) i
   end.
 
 Fixpoint s_operands (ss : sstate) (os : list operand) : res (list val) :=
@@ -193,6 +193,14 @@ Definition sstep (ss : sstate) (c : cop) : res (sstate * list obs) :=
   | Clone dst src => do lxs <- s_vec ss src; Ok (s_newvec ss dst (snd lxs), [])
   | MapF dst src f =>
     do lxs <- s_vec ss src; do ys <- seq_map (slook ss) f (snd lxs); Ok (s_newvec ss dst ys, [])
+  | MapElem dst src w i =>
+    (* the sequence obtained by replacing every element with the value w[i] has NOW *)
+    do lxs <- s_vec ss src; do ys <- seq_map (slook ss) (FConst (s_operand ss (OElem w i))) (snd lxs);
+    Ok (s_newvec ss dst ys, [])
+  | MapKeyElem dst src m k =>
+    do lxs <- s_vec ss src;
+    do ys <- seq_map (slook ss) (FConst (do lkv <- s_map ss m; Ok (opt_val (mget (snd lkv) k)))) (snd lxs);
+    Ok (s_newvec ss dst ys, [])
   | FilterF dst src p =>
     do lxs <- s_vec ss src; do ys <- seq_filter (slook ss) p (snd lxs); Ok (s_newvec ss dst ys, [])
   | IndexOf v x =>
